@@ -7,6 +7,12 @@ ALL = ["C%02d" % i for i in range(1, 21)]
 WRAP_NOTE = "Shaped runs are synthetic (generator asserts the shaper output contract); break opportunities come from the segmenter (C06). Negative letter spacing is checked for conservation only (measure not monotone)."
 SHAPE_NOTE = "The alphabet is a heuristic quotient (font-derived lookup-coverage classes + per-script category packs + universal troublemakers): the claim is 'all strings over this alphabet up to the bound', not 'all strings'. Secondary axes are crossed with the string axis, not with each other. Worker processes run under RLIMIT_AS with a per-case journal and watchdog."
 CHECKS = {
+ "C05": dict(
+   level="exploration",
+   text="Every corpus face libharfbuzz opens x every string up to the tier's length over its font-derived alphabet, the script packs and the normalisation pack x directions, per-axis min/max variations, global/ranged/optional features (through one reused feature array), cluster levels and flags: harfbuzz.Buffer.Shape compared field by field with hb_shape of the system libharfbuzz 6.0.0 (cgo) on the same bytes. Domain D is defined by 12 rules (DESIGN.md C05): cmap-layer differences (C10/C11), Graphite fonts, growth-limit outputs, bitmap-only and COLR fonts, Arabic fallback shaping, vertical runs without vmtx, active FeatureVariations, USE scripts, marks with multiple substitution, mapped SOFT HYPHEN, FFTM-era Amiri.",
+   note="The reference is HarfBuzz 6.0.0 while the port follows a later upstream: agreement is claimed on D only, where go-text == 6.0.0 on the whole enumeration of the unchanged tree; rules R7, R9, R11, R12 are unresolved classes (version drift or port defect could not be told apart in the sandbox). Built as a cgo variant of the check binary; setup fails loudly if it cannot link.",
+   technique="bounded exhaustive differential enumeration against a live reference implementation (E1)",
+   design="1/C05", engine="E1 enum"),
  "C01": dict(
    level="exploration",
    text="Every corpus face (752) x every string up to the tier's length over its font-derived alphabet and the script packs it covers x {6 directions, every sub-run with context, out-of-contract bounds, 8 script tags, sizes, features, language} through shaping.Shape and x {7 flag values x 3 cluster levels x 2 directions} through harfbuzz.Buffer.Shape; totality (panic, hang, memory attributed to the journalled case), output budget, reported range, cluster membership/monotonicity/count laws.",
